@@ -117,13 +117,46 @@ def behaviours_equal(b0, bl):
     return f"-O0: {b0[0]} out={b0[1][-60:]!r} value={b0[2]!r}; optimised: {bl[0]} out={bl[1][-60:]!r} value={bl[2]!r}"
 
 
+def dce_tie(ctx, progs, res):
+    """Fidelity of Model/Opt/Dce.v: the model pass (proc = fun _ => false), evaluated inside Coq on
+    the typed AST the real front end produced, must give exactly the AST the real
+    DeadCodeEliminator produces from it.  Also counts on how many inputs the implemented pass
+    coincides with the variant the preservation theorem is about (code 0) or not (code 2)."""
+    cases, idx = [], []
+    for i in range(len(progs)):
+        a = res.get(i, {}).get("ast", {})
+        out = a.get("pass:dce")
+        if "in" in a and out:
+            if out.startswith("PANIC"):
+                ctx.violation("c01:dce-panic", "the dead-code elimination pass panics", {"program": progs[i], "panic": out})
+                continue
+            cases.append(f"{a['in']} {out}")
+            idx.append(i)
+    codes, err = vlib.coq_eval_codes("c01dce", "From Aelys Require Import Model.Lang Model.Opt.DceObs.", "dce_fid", cases, shard=80)
+    if err:
+        ctx.broken.append("correspondence C01: DCE model evaluation failed")
+        ctx.log(err[-2000:])
+    cc = collections.Counter(c for c in codes if c is not None)
+    differs = [idx[k] for k, c in enumerate(codes) if c == 1]
+    if differs:
+        # the model is no longer the pass (or the pass changed): the theorem no longer speaks about the code
+        ctx.broken.append(f"correspondence C01: Model/Opt/Dce.v differs from the real dead-code pass on {len(differs)} of {len(cases)} programs")
+        ctx.cov["dce_model_differs_example"] = {"program": progs[differs[0]][:3000],
+                                                "real_pass_output": res[differs[0]]["ast"]["pass:dce"][:3000]}
+    ctx.cov["dce_model_tie"] = {"programs": len(cases), "model_equals_real_pass_and_theorem_applies": cc.get(0, 0),
+                                "model_equals_real_pass_but_variant_differs": cc.get(2, 0), "model_differs_from_real_pass": cc.get(1, 0)}
+    ctx.cov["evaluations"] = ctx.cov.get("evaluations", 0) + len(cases)
+    ctx.log(f"DCE model tie: {dict(cc)}")
+
+
+
 def run(ctx):
     ctx.level = "proof"
     ctx.cov["trusted_base"] = TRUSTED
     proved = ctx.prove("C01", extracted=["OptConsts", "ValueConsts", "Opcodes"])
     if ctx.tier == "thorough" and proved:
         ctx.coqchk("C01")
-    ok, out = vlib.coq_make(["Model/EvalObs.vo", "Model/Opt/FoldObs.vo"])
+    ok, out = vlib.coq_make(["Model/EvalObs.vo", "Model/Opt/FoldObs.vo", "Model/Opt/DceObs.vo"])
     if not ok:
         ctx.broken.append("coq: model files for the C01 ties do not build")
         ctx.log(out[-2000:])
@@ -135,9 +168,10 @@ def run(ctx):
     corpus = c02.load_corpus("C01")
     progs = corpus + progs
     feats = [["corpus"]] * len(corpus) + feats
-    res = c02.run_stream(ctx, progs)
+    res = c02.run_stream(ctx, progs, passes="dce")
     if res is None:
         return
+    dce_tie(ctx, progs, res)
     cases, idx = [], []
     dist, featc = collections.Counter(), collections.Counter()
     impl_bad = 0
@@ -184,7 +218,7 @@ def run(ctx):
             sig = classify(progs[i], r, l)
             ctx.violation(sig, f"under the evaluator, the real optimizer's -O{l} output behaves differently from its input",
                           {"program": progs[i], "level": l, "optimised_ast": r["ast"][str(l)][:4000]})
-    ctx.cov["evaluations"] = nk + len(cases) + 3 * len(distinct)
+    ctx.cov["evaluations"] = ctx.cov.get("evaluations", 0) + nk + len(cases) + 3 * len(distinct)
     ctx.cov["distinct_nontrivial"] = len(distinct)
     ctx.cov["model_too_slow"] = len([x for x in vlib.SLOW_CASES if x[0] == "c01"])
     ctx.cov["programs"] = len(distinct)
